@@ -19,6 +19,7 @@ def sig(c, clause, **kw):
 
 def history_facts(ops):
     """what the caches of the object mean after the history (versions of the data they were derived from)"""
+    ops = [x for o in ops for x in ((2, 3) if o == 8 else (o,))]      # integrateAndNormalize = integrate; normalize
     dver = 0
     px = py = fill = 0
     norm_ok = None          # last normalize ran on a filling measured from the then-current data
@@ -39,7 +40,9 @@ def history_facts(ops):
         return a in last and all(last[a] > last.get(b, -1) for b in bs)
     return dict(fresh=fresh, px_fresh=px == dver, py_fresh=py == dver, fill_fresh=fill == dver and px == dver,
                 normalized=norm_ok is True, n_norm=sum(1 for o in ops if o == 3),
-                share=(norm_ok is True and sum(1 for o in ops if o == 3) == 1 and fill == dver and px == dver),
+                # the LAST normalize ran on a freshly measured filling (earlier ones may have been stale: a
+                # normalisation on fresh caches restores the shares whatever the data were scaled by before)
+                share=(norm_ok is True and fill == dver and px == dver),
                 var0=after(6, (0, 2)), var1=after(7, (1, 2)),
                 avg0=after(6, (0, 2)) or (after(4, (0, 2)) and 6 not in last),
                 avg1=after(7, (1, 2)) or (after(5, (1, 2)) and 7 not in last))
